@@ -736,6 +736,161 @@ def r_engine_limits(rule, root=None):
         rule.bad("engine|steps", "engine() documents a limit of %s steps but stops scripts after %s" % (mp.group(1), mc.group(2)), A.where(fn))
 
 
+# what each `impl FromDynamic for T` accepts, in order (confirmed by reading fidget-rhai; one line of reason each)
+CONVERSIONS = {
+    "f32": ["cast:f64", "cast:i64"],  # Rhai's two numeric types
+    "Vec2": ["cast:Self", "array:f32"],  # a vec2 value, or [x, y]
+    "Vec3": ["from:Vec2", "cast:Self", "array:f32"],  # a 2D position is promoted with the field's default z; a vec3; [x, y(, z)]
+    "Vec4": ["cast:Self", "array:f32"],
+    "Axis": ["cast:Self", "from:Vec3", "cast:Tree"],  # an axis value, a direction vector, or one of the trees x / y / z
+    "Plane": ["cast:Self", "from:Axis"],  # a plane value, or an axis (plane through the origin)
+    "Tree": ["cast:Tree", "from:f32", "from:Vec<Tree>"],  # a tree, a number (constant), an array (union)
+    "Vec<Tree>": ["array:Tree"],  # every element through Tree's own conversion (numbers, nested arrays)
+}
+
+
+def _conversion_steps(fn, self_ty):
+    out = []
+    body = fn["body"]
+    for n in A.walk(body):
+        k = n.get("k") if isinstance(n, dict) else None
+        if k == "MethodCall" and n["method"] == "try_cast":
+            tf = n.get("turbofish") or n.get("generics") or ""
+            t_ = A.unparse(n).replace(" ", "")
+            m = re.search(r"try_cast::<([^>]+(?:<[^>]*>)?)>\(\)$", t_)
+            ty = m.group(1) if m else "Self"
+            if ty == self_ty:
+                ty = "Self" if self_ty != "Tree" else "Tree"
+            out.append((n.get("ln", 0), n.get("c", 0), "cast:%s" % ty))
+        elif k == "MethodCall" and n["method"] in ("into_array", "into_typed_array"):
+            out.append((n.get("ln", 0), n.get("c", 0), "array?" if n["method"] == "into_array" else "typed_array"))
+        elif k == "Call":
+            segs = A.path_segs(n["func"]) or []
+            t_ = A.unparse(n["func"]).replace(" ", "")
+            qs = (n["func"].get("qself") or "").replace(" ", "") if isinstance(n["func"], dict) else ""
+            if segs[-1:] == ["from_dynamic"] and (len(segs) >= 2 or qs):
+                ty = qs if (qs and len(segs) == 1) else t_.rsplit("::from_dynamic", 1)[0]
+                if ty.startswith("<") and ty.endswith(">"):
+                    ty = ty[1:-1]
+                out.append((n.get("ln", 0), n.get("c", 0), "elem:%s" % ty))
+    out.sort()
+    return [x[2] for x in out]
+
+
+def r8_conversions(rule, root=None):
+    """what a script value may be converted from: every `impl FromDynamic for T` accepts exactly the sources of the
+    table above.  An extra source is a silent lossy conversion (a vec3 where a 2D position is expected, swallowed
+    before Vec3's own conversion sees it); a missing one makes scripts fail that the Rust calls accept; arrays
+    convert every element through the element type's own conversion."""
+    import glob as _glob
+    import os as _os
+
+    base = root or A.REPO
+    seen = set()
+    for full in sorted(_glob.glob(_os.path.join(base, "fidget-rhai", "src", "*.rs"))):
+        path = _os.path.relpath(full, base)
+        d = A.load(path, root)
+        for f in d["_fns"]:
+            ow = f.get("_owner") or {}
+            if f["name"] != "from_dynamic" or f["_test"] or "FromDynamic" not in (ow.get("trait") or "") or f.get("body") is None:
+                continue
+            ty = (ow.get("self_ty") or "").replace(" ", "")
+            if ty not in CONVERSIONS:
+                rule.skip("FromDynamic for %s" % ty, "no entry in the conversion table (a new convertible type: confirm its sources by reading)", count=True)
+                continue
+            seen.add(ty)
+            steps = _conversion_steps(f, ty)
+            # helpers that do the array part (vecN_from_rhai_array) live next to the impl
+            body_t = str(txt(f["body"]))
+            got = []
+            elem_after_array = None
+            arr = False
+            for s_ in steps:
+                if s_ == "array?":
+                    arr = True
+                    continue
+                if s_ == "typed_array":
+                    got.append("typed_array")
+                    continue
+                if s_.startswith("elem:"):
+                    e_ = s_[5:]
+                    if arr:
+                        if elem_after_array is None:
+                            elem_after_array = e_
+                            got.append("array:%s" % e_)
+                        continue
+                    got.append("from:%s" % e_)
+                    continue
+                got.append(s_)
+            if arr and elem_after_array is None:
+                m = re.search(r"(vec\dfrom_rhai_array|vec\d_from_rhai_array)\(", body_t)
+                got.append("array:f32" if m else "array:?")
+            want = CONVERSIONS[ty]
+            if got == want:
+                rule.ok("FromDynamic for %s accepts %s" % (ty, ", ".join(want)), file=path, line=f["ln"])
+            else:
+                extra = [g for g in got if g not in want]
+                missing = [w for w in want if w not in got]
+                what = ("also accepts `%s`" % extra[0]) if extra else (("no longer accepts `%s`" % missing[0]) if missing else "tries its sources in the order %s" % got)
+                rule.bad("convert|%s|%s" % (ty, (extra or missing or ["order"])[0]), "FromDynamic for %s %s (table: %s). A source outside the table is converted silently where the Rust API would not accept it (or hides the value from the conversion that understands it); a typed array skips the element conversion that turns numbers and nested arrays into trees" % (ty, what, ", ".join(want)), A.where(path, f))
+    for ty in CONVERSIONS:
+        if ty not in seen:
+            rule.lost("impl FromDynamic for %s" % ty)
+
+
+def r9_constructor_collisions(rule, root=None):
+    """the reflection-driven shape builders register `name(Dynamic x k)` for every shape type with k fields.  A
+    hand-written value constructor of the same name and arity survives only because one of its parameters has a
+    concrete type; written with all-Dynamic parameters it has the builder's signature and the later registration
+    replaces it (plane(v, offset) would then return the Plane *shape's tree*)."""
+    nfields = {}
+    for path in ("fidget-shapes/src/types.rs", "fidget-shapes/src/lib.rs"):
+        d = A.load(path, root)
+        for it in A.find(d, "StructDef"):
+            fs = it.get("fields")
+            if isinstance(fs, list):
+                nfields[it["name"].lower()] = len(fs)
+    if len(nfields) < 10:
+        rule.lost("struct definitions of fidget-shapes (found %d)" % len(nfields))
+        return
+    # only the types handed to the visitor get reflection-driven builders
+    vs = A.find_fn("fidget-shapes/src/lib.rs", "visit_shapes", root=root)
+    visited = set(re.findall(r"visit::<(\w+)>\(\)", str(txt(vs["body"]))))
+    if len(visited) < 10:
+        rule.lost("the shape list of visit_shapes (found %d)" % len(visited))
+        return
+    nfields = {k: v for k, v in nfields.items() if k in {x.lower() for x in visited}}
+    d = A.load(TYPES, root)
+    n = 0
+    seen_calls = set()
+    for c in A.find(d, "MethodCall"):
+        if id(c) in seen_calls:
+            continue
+        seen_calls.add(id(c))
+        if c["method"] != "register_fn" or len(c["args"]) != 2:
+            continue
+        nm_t = A.unparse(A.strip(c["args"][0])).strip()
+        nm = nm_t[1:-1] if len(nm_t) >= 2 and nm_t[0] == '"' and nm_t[-1] == '"' else None
+        clo = A.strip(c["args"][1])
+        if not isinstance(nm, str) or clo.get("k") != "Closure":
+            continue
+        ps = clo.get("inputs", [])
+        tys = []
+        for p_ in ps:
+            u_ = A.unparse(p_).replace(" ", "")
+            tys.append(u_.split(":", 1)[1] if ":" in u_ else "")
+        script = [t_ for t_ in tys if "NativeCallContext" not in t_]
+        if nm not in nfields or not script:
+            continue
+        n += 1
+        if len(script) == nfields[nm] and all(t_.endswith("Dynamic") for t_ in script):
+            rule.bad("collision|%s|%d" % (nm, len(script)), "the hand-written constructor `%s(%s)` takes only Dynamic parameters and the shape type of that name has %d fields: the positional shape builder registered afterwards has the same signature and replaces it, so the call returns the shape's tree instead of the value" % (nm, ", ".join(script), nfields[nm]), A.where(TYPES, c))
+        else:
+            rule.ok("`%s(%s)` cannot be shadowed by the %d-field shape builder" % (nm, ", ".join(script), nfields[nm]), file=TYPES, line=c["ln"])
+    if n == 0:
+        rule.skip("value constructors named like a shape", "none found", count=True)
+
+
 def run(ctx):
     r = ctx.rule("R1", "operators and functions are registered to their namesake, both operand orders, operands in source order; comparisons rejected", 69)
     ctx.guarded(r, r1_operator_tables)
@@ -751,3 +906,7 @@ def run(ctx):
     ctx.guarded(r, r6_classification_order)
     r = ctx.rule("R7", "the engine's limits are the documented ones, in Rhai's argument order", 2)
     ctx.guarded(r, r_engine_limits)
+    r = ctx.rule("R8", "what a script value converts from: every FromDynamic impl accepts exactly its table of sources, in order; arrays convert each element through the element type's own conversion", 8)
+    ctx.guarded(r, r8_conversions)
+    r = ctx.rule("R9", "hand-written value constructors named like a shape keep a concretely typed parameter, so the all-Dynamic positional builder of the same arity cannot replace them", 2)
+    ctx.guarded(r, r9_constructor_collisions)
